@@ -1342,10 +1342,16 @@ def main(argv: List[str]) -> int:
             )
             for i, r in again:
                 det_checked += 1
+                # a violation seen in the second execution is an observation of the tree under test like
+                # any other (e.g. behaviour that depends on recycled memory addresses shows only sometimes)
+                for v in r.get("violations", []):
+                    first_fail.setdefault(v["sig"], (task_by_seed[sample[i]], r))
                 if r.get("digest") != by_seed[sample[i]].get("digest"):
                     det_mismatch += 1
+                    extra = "; ".join(v["msg"][:300] for v in r.get("violations", [])[:1]) or f"harness={r.get('harness')}"
                     rep.harness_error(
-                        f"determinism: run_seed={sample[i]} gave digest {by_seed[sample[i]].get('digest')} then {r.get('digest')}", soft=True
+                        f"determinism: run_seed={sample[i]} shape={task_by_seed[sample[i]].get('shape')} gave digest {by_seed[sample[i]].get('digest')} then {r.get('digest')} [{extra}]",
+                        soft=True,
                     )
             fs = sample[: max(8, cfg["det"] // 4)]
             fd = fresh_digests(fs, tier, "5")
